@@ -9,7 +9,7 @@ import gen_cube as G
 ID = "C14"
 LEAN_MODULES = ["CatiiProps.C14"]
 RULE = ("exhaustive: every list of 1..3 one-axis dims over N<=3 rows, values < 2, every common; random: 1..4 dims, N<=40, "
-        "extents 1..5, commons frequent/rare/absent. Observed: ccube(dims).interactions() as a multiset of (coords, row ids). "
+        "extents 1..5, commons frequent/rare/absent; the same with explicit entries that list no row added to the dimensions. Observed: ccube(dims).interactions() as a multiset of (coords, row ids). "
         "Non-trivial = at least one item delivered; distinct by (dense columns, commons)")
 ASSUMPTIONS = ["dict iteration order is not part of the property: deliveries are compared as multisets"]
 
@@ -31,6 +31,28 @@ def spec_items(dense, idxs):
     return sorted(out)
 
 
+def with_empties(idxs, empties):
+    """the same dimensions with explicit entries that list no row (a caller may leave `idx[key] = rowids[keep]` with
+    nothing kept; `validate()` accepts it): `empties[d]` = [[value, position among the entries], ...]"""
+    from catii import iindex
+    out = []
+    for ix, emp in zip(idxs, empties):
+        items = list(dict.items(ix))
+        for v, pos in emp:
+            if (v,) not in dict(items) and v != ix.common:
+                items.insert(min(pos, len(items)), ((int(v),), np.array([], dtype=np.uint32)))
+        out.append(iindex(dict(items), ix.common, ix.shape))
+    return out
+
+
+def gen_empties(rng, case):
+    emp = []
+    for d in case["dense"]:
+        ext = int(max(d.tolist() + [0])) + 2
+        emp.append([[rng.randrange(0, ext + 1), rng.randrange(0, 4)] for _ in range(rng.choice([0, 1, 1, 2]))])
+    return emp
+
+
 def observe(cube):
     items = cube.interactions()
     out = []
@@ -46,6 +68,10 @@ def check(ctx, case, reqs, pend):
         return
     idxs = [G.make_index(d, c) for d, c in zip(dense, commons)]
     desc = {"dense": [d.tolist() for d in dense], "commons": commons}
+    if case.get("empties"):
+        idxs = with_empties(idxs, case["empties"])
+        desc["empties"] = case["empties"]
+        ctx.hit("explicit_empty_entries")
     try:
         got = observe(ccube(idxs))
     except Exception as e:
@@ -79,6 +105,15 @@ def run(ctx):
         case = G.gen_dims(ctx.rng)
         if case["dense"]:
             check(ctx, case, reqs, pend)
+    # dimensions carrying explicit entries that list no row: they match no row, so nothing is presented for them
+    for case in G.exhaustive_small(2, 2, 2):
+        if case["dense"]:
+            for v in (0, 1, 2):
+                check(ctx, dict(case, empties=[[[v, j]] for j in range(len(case["dense"]))]), reqs, pend)
+    for _ in range(ctx.n(120)):
+        case = G.gen_dims(ctx.rng)
+        if case["dense"]:
+            check(ctx, dict(case, empties=gen_empties(ctx.rng, case)), reqs, pend)
     if ctx.oracle_only:
         return
     for (desc, got), m in zip(pend, ctx.model.run(reqs)):
@@ -93,4 +128,6 @@ def replay(ctx, rep):
     c = rep["case"]
     dense = [np.array(d, dtype=np.int64) for d in c["dense"]]
     idxs = [G.make_index(d, cm) for d, cm in zip(dense, c["commons"])]
+    if c.get("empties"):
+        idxs = with_empties(idxs, c["empties"])
     return sorted(observe(ccube(idxs))) == spec_items(dense, idxs)
